@@ -89,42 +89,71 @@ def currencySpec (fields : List String) (target : String) (rates : List (String 
   output.all (·.md.currency == some target) &&
   matchAll (convRel fields target rates) input output
 
+/-! ### totals: the vocabulary of the conservation theorems and of the sum clauses below -/
+
+/-- the `i`-th number of a value (0 beyond its length) -/
+def comp (v : Val) (i : Nat) : Rat := ((vdata v)[i]?).getD 0
+
+/-- the `i`-th number of field `f` of a cell (0 if the cell has no such field) -/
+def cellField (c : Cell) (f : String) (i : Nat) : Rat :=
+  ((c.values.filter (·.1 == f)).map fun kv => comp kv.2 i).sum
+
+/-- total of the `i`-th number of field `f` over a list of cells -/
+def total (cells : List Cell) (f : String) (i : Nat) : Rat := (cells.map (cellField · f i)).sum
+
+/-- the longest value of field `f` among the cells -/
+def maxLen (cells : List Cell) (f : String) : Nat :=
+  (cells.flatMap fun c => (c.values.filter (·.1 == f)).map fun kv => (vdata kv.2).length).foldl max 0
+
 /-! ### disaggregation -/
 
 /-- the first sub-period of `c` is over at its evaluation date -/
 def observable (res : Nat) (c : Cell) : Bool := (addMonths c.ps (res : Rat)).pred ≤ c.ev
 
-def childrenOf (output : List Cell) (c : Cell) : List Cell :=
-  output.filter fun o => o.md == c.md && o.ev == c.ev && c.ps ≤ o.ps && o.pe ≤ c.pe
+def period (c : Cell) : Date × Date := (c.ps, c.pe)
 
-/-- the children's periods are `res`-month periods laid end to end from `c.ps` -/
-def tiles (res : Nat) (start : Date) : List Cell → Bool
-  | [] => true
-  | o :: rest => o.ps == start && o.pe == (addMonths o.ps (res : Rat)).pred && tiles res o.pe.succ rest
+/-- number of months touched by the cell's own period -/
+def monthsIn (c : Cell) : Nat := (monthToId c.pe - monthToId c.ps + 1).toNat
 
-/-- no observable sub-period is missing: the sub-period after the last child would end after the
-original period or after the evaluation date -/
-def complete (res : Nat) (c : Cell) (ch : List Cell) : Bool :=
-  match ch.getLast? with
-  | none => true
-  | some l =>
-    let nextEnd := (addMonths l.pe.succ (res : Rat)).pred
-    c.pe < nextEnd || c.ev < nextEnd
+/-- the sub-periods `c` must be split into: the consecutive `res`-month blocks from `c.ps`
+(`[add_months(ps, k·res), add_months(ps, (k+1)·res) − 1 day]`) that end within the cell's period and
+by its evaluation date -/
+def expectedSubs (res : Nat) (c : Cell) : List (Date × Date) :=
+  (subperiods c.ps res (monthsIn c)).filter fun p => p.2 ≤ c.pe && p.2 ≤ c.ev
 
-/-- Σ over the sub-periods of every selected field equals the original value; sub-periods tile a
-prefix of the original period, are all observable, carry exactly the selected fields; nothing else
-is in the output -/
+/-- output cells of `c`'s slice and evaluation date on one of `c`'s expected sub-periods -/
+def childrenOf (res : Nat) (output : List Cell) (c : Cell) : List Cell :=
+  output.filter fun o => o.md == c.md && o.ev == c.ev && (expectedSubs res c).contains (o.ps, o.pe)
+
+/-- every cell is split into EXACTLY its expected sub-periods (each once: tiling of the observable
+part, nothing missing), as plain Cells carrying exactly the selected fields, every selected field
+adding up to the original component by component; nothing else is in the output -/
 def disaggSpec (res : Nat) (fields : List String) (tol : Rat) (input output : List Cell) : Bool :=
   (input.all fun c =>
-    let ch := childrenOf output c
+    let ch := childrenOf res output c
     let sel := c.values.filter fun kv => fields.contains kv.1
-    (observable res c == !ch.isEmpty) &&
-    tiles res c.ps ch && complete res c ch &&
-    ch.all (fun o => o.pe ≤ o.ev && sameKeys o.values.keys (sel.map (·.1))) &&
+    (ch.map period).isPerm (expectedSubs res c) &&
+    ch.all (fun o => o.kind == .cell && sameKeys o.values.keys (sel.map (·.1))) &&
     (ch.isEmpty || sel.all fun kv =>
-      kv.2 != .none &&
-      optClose tol (sumData (ch.map fun o => vdata ((o.values.get? kv.1).getD .none))) (some (vdata kv.2)))) &&
-  output.length == ((input.map fun c => (childrenOf output c).length).sum)
+      (List.range (max (maxLen ch kv.1) (vdata kv.2).length)).all fun i =>
+        close tol (total ch kv.1 i) (cellField c kv.1 i))) &&
+  output.length == ((input.map fun c => (childrenOf res output c).length).sum)
+
+/-- well-formedness assumed by `disagg_spec_bridge` (decidable; evaluated by the driver on every
+case): in every slice the period resolution `L` is a multiple of `res`, every period starts on the
+first of a month from 1970 on and is exactly `L` months long, no cell occurs twice, and two cells
+with the same evaluation date have disjoint periods -/
+def disaggWF (res : Nat) (t : List Cell) : Bool :=
+  (Triangle.slices t).all fun sl =>
+    match periodResolution sl.2 with
+    | .ok L =>
+      decide (1 ≤ res) && decide (0 < L) && L % (res : Int) == 0 && decide sl.2.Nodup &&
+      sl.2.all (fun c => c.ps.d == 1 && decide (0 ≤ monthToId c.ps) &&
+        c.pe == (addMonths c.ps ((L.toNat : Nat) : Rat)).pred &&
+        decide ((c.values.map (·.1)).Nodup)) &&
+      sl.2.all fun c => sl.2.all fun c' =>
+        c == c' || c.ev != c'.ev || decide (c.pe < c'.ps) || decide (c'.pe < c.ps)
+    | .error _ => false
 
 /-- aggregating the disaggregated triangle back gives the input again (selected fields, cells with
 an observable sub-period), cell class aside -/
@@ -143,8 +172,9 @@ def aggBackSpec (res : Nat) (fields : List String) (tol : Rat) (input agg : List
 
 def toPolicy (m : Metadata) : Metadata := { m with riskBasis := some "Policy" }
 
-/-- per (slice, evaluation date, field) the total is unchanged; every output cell is a cumulative
-cell of a Policy-basis slice -/
+/-- per (slice, evaluation date, field, component) the total is unchanged — components compared up
+to the longest value of the field on either side —; every output cell is a cumulative cell of a
+Policy-basis slice -/
 def policyYearSpec (tol : Rat) (input output : List Cell) : Bool :=
   output.all (fun o => o.md.riskBasis == some "Policy" && o.kind == .cumulative) &&
   let key : Cell → Metadata × Date := fun c => (toPolicy c.md, c.ev)
@@ -152,8 +182,8 @@ def policyYearSpec (tol : Rat) (input output : List Cell) : Bool :=
     let ins := input.filter (key · == k)
     let outs := output.filter (key · == k)
     (dedup (ins.flatMap (·.values.keys) ++ outs.flatMap (·.values.keys))).all fun f =>
-      optClose tol (sumData (ins.filterMap fun c => (c.values.get? f).map vdata))
-                   (sumData (outs.filterMap fun c => (c.values.get? f).map vdata))
+      (List.range (max (maxLen ins f) (maxLen outs f))).all fun i =>
+        close tol (total outs f i) (total ins f i)
 
 /-- contract of the share table (DESIGN §7 C18: "row sums positive"): in every slice the normalised
 shares of every accident period over the policy years sum to 1 (i.e. the raw total is not 0). It
@@ -166,18 +196,6 @@ def policyCovered (input : List Cell) (policyLen : Nat) (origin : Date) (continu
     | .ok pys => (aqShares (periods sl.2) pys policyLen continuous).all fun row =>
         (row.2.map (·.2)).sum == 1
     | .error _ => true
-
-/-! ### totals (vocabulary of the conservation theorems) -/
-
-/-- the `i`-th number of a value (0 beyond its length) -/
-def comp (v : Val) (i : Nat) : Rat := ((vdata v)[i]?).getD 0
-
-/-- the `i`-th number of field `f` of a cell (0 if the cell has no such field) -/
-def cellField (c : Cell) (f : String) (i : Nat) : Rat :=
-  ((c.values.filter (·.1 == f)).map fun kv => comp kv.2 i).sum
-
-/-- total of the `i`-th number of field `f` over a list of cells -/
-def total (cells : List Cell) (f : String) (i : Nat) : Rat := (cells.map (cellField · f i)).sum
 
 /-! ### premium pattern -/
 
